@@ -22,13 +22,8 @@ Definition spec_search (ws : list bool) (o : op) (R : tset) (K : list ts) : list
 (* twin requests: every reference on its own (the iterator adaptor asks one reference at a time),
    results gathered, sorted, each once; the twin resource has the same text and the same known
    selections under the same handle numbers and answers the same, shown as 1000 + handle *)
-Fixpoint dedup_adj (l : list nat) : list nat :=
-  match l with
-  | x :: ((y :: _) as r) => if Nat.eqb x y then dedup_adj r else x :: dedup_adj r
-  | _ => l
-  end.
 Definition gathered (f : tset -> list nat) (R : tset) : list nat :=
-  let one := dedup_adj (sort (flat_map (fun t => f (mkset [t] false)) (items R))) in
+  let one := gather (fun t => f (mkset [t] false)) (items R) in
   one ++ map (fun h => 1000 + h) one.
 
 Definition run_C06 (x : sx) : sx :=
